@@ -64,6 +64,8 @@ GUARDS = [
      r"if\s*\(0\s*!=\s*pos->connection_timeout_ms\)\s*pos->last_activity\s*=\s*MHD_monotonic_msec_counter\s*\(\);"),
     ("resumeRestartsTimerManual", "daemon.c", "resume_suspended_connections",
      r"if\s*\(0\s*!=\s*pos->connection_timeout_ms\)\s*pos->last_activity\s*=\s*MHD_monotonic_msec_counter\s*\(\);\s*if\s*\(pos->connection_timeout_ms\s*==\s*daemon->connection_timeout_ms\)"),
+    ("setTimeoutSkipsSuspended", "connection.c", "MHD_set_connection_option",
+     r"if\s*\(\s*!\s*connection->suspended\)\s*\{[^{}]*XDLL_remove[^{}]*XDLL_remove[^{}]*connection->connection_timeout_ms\s*=[^{}]*XDLL_insert[^{}]*\}\s*else\s*\{[^{}]*connection->connection_timeout_ms\s*=[^{}]*\}"),
     ("selectReadsPrevAfterCall", "daemon.c", "internal_run_from_select", r"for\s*\(pos\s*=\s*daemon->connections_tail;\s*NULL\s*!=\s*pos;\s*pos\s*=\s*pos->prev\)"),
 ]
 
@@ -151,6 +153,15 @@ def probe_script_timer(override):
                 "round", "wb 0", "round", "stop"]
 
 
+def probe_script_settimeout():
+    """MHD_set_connection_option (TIMEOUT) on a suspended connection: the white-box view shows whether it was linked
+    into a timeout list (the harness takes it out again, so the run can go on)"""
+    req = b"GET /g HTTP/1.1\r\nHost: x\r\n\r\n"
+    return ["case sett", "cfg mode=select suspend=1 timeout=5", "resp 1 kind=cb-unknown size=10 cbmax=4",
+            "beh 0 0 fs=n u=all us=- ls=- rs=- rd=0 l=r1", "start", "arrive 0 1", "send 0 " + hx(req), "round", "round",
+            "wb 0", "settimeout 0 2", "resume 0", "round", "round", "round", "stop"]
+
+
 def probe_guards():
     """behavioural determination of the guards (semantic route): the real code is asked"""
     h = vlib.build_daemon_harness(name="h_susp", src="harness/h_susp.c", ldextra=["-ldl"])
@@ -199,6 +210,10 @@ def probe_guards():
         e = next(i for i, l in enumerate(lg) if i > k and l == "round-end")
         b = max(i for i, l in enumerate(lg) if i < k and l == "round-begin")
         g["selectReadsPrevAfterCall"] = not any(l.startswith("handler c=1") for l in lg[b:e])
+    out, rc, err = vlib.run_lines(h, probe_script_settimeout(), timeout=120)
+    wbs = [dict(KV.findall(l)) for l in out if l.startswith("wb ")]
+    if wbs and wbs[0].get("suspended") == "1" and any(l.startswith("settimeout ") and "susp=1" in l for l in out):
+        g["setTimeoutSkipsSuspended"] = not any(l.startswith("tolist-violation") for l in out)
     for name, ov in (("resumeRestartsTimerNormal", None), ("resumeRestartsTimerManual", 2)):
         out, rc, err = vlib.run_lines(h, probe_script_timer(ov), timeout=120)
         wbs = [dict(KV.findall(l)) for l in out if l.startswith("wb ")]
@@ -331,7 +346,10 @@ class ConnSpec:
 
 
 class Case:
-    def __init__(self, name, mode, conns, resps, extra_resume=(), rounds=None, tcfg=None, late=False):
+    def __init__(self, name, mode, conns, resps, extra_resume=(), rounds=None, tcfg=None, late=False, sett=None):
+        # sett = (when, seconds): MHD_set_connection_option (TIMEOUT) for connection 0 from outside a callback,
+        # when = "before" the suspension / "while" suspended / "after" the resume (timer family only)
+        self.sett = sett
         self.name, self.mode, self.conns, self.resps = name, mode, conns, resps
         # tcfg = (daemon default timeout s, per-connection timeout s of connection 0 or None, ms the virtual clock advances
         # while connection 0 is suspended); late: the last piece of the request is sent only after the first resume
@@ -341,7 +359,7 @@ class Case:
 
     def erased(self):
         return Case(self.name + "~base", self.mode, [c.erased() for c in self.conns], self.resps, rounds=self.total_rounds(),
-                    tcfg=self.tcfg, late=self.late)
+                    tcfg=self.tcfg, late=self.late, sett=self.sett)
 
     def total_rounds(self):
         if self.rounds is not None:
@@ -380,8 +398,10 @@ class Case:
         if self.tcfg:
             # timer family: the clock runs only while connection 0 is suspended (far beyond every timeout in play);
             # the explicit resume follows two rounds later; several cycles, so that every suspend point is served
-            cyc = ["tick-if-susp 0 %d" % self.tcfg[2], "round", "round", "resume 0", "round", "round"]
+            st = (lambda w: ["settimeout 0 %d" % self.sett[1]] if (self.sett and self.sett[0] == w) else [])
+            cyc = ["tick-if-susp 0 %d" % self.tcfg[2]] + st("while") + ["round", "round", "resume 0", "round", "round"] + st("after")
             held = pcs[0][-1] if (self.late and len(pcs[0]) > 1) else None
+            L += ["round"] + st("before")        # the connection is known to the application after its first round
             for piece in (pcs[0][:-1] if held is not None else pcs[0]):
                 L += ["send 0 %s" % hx(piece), "round", "round"]
             L += cyc * 2
@@ -486,6 +506,16 @@ def gen_cases(ctx, tier, boost=False):
                     for late in ((False, True) if seg == "pieces" else (False,)):
                         cases.append(Case("t%d" % k, mode, [ConnSpec(shape, seg, plan_for(combo, "n", takes, rid=1 + k % 2))], RESPS,
                                           tcfg=(dflt, own, 7000), late=late))
+                        k += 1
+    # MHD_set_connection_option (TIMEOUT) from outside the callbacks: before the suspension / while suspended / after the resume x
+    # new value {= daemon default, != default, 0} x every single suspend point; the clock still runs only during the suspension
+    for combo in [cb for cb in allp if len(cb) == 1 or cb in (("F0", "F1"), ("L0", "L1"))]:
+        for (shape, seg, takes) in SHAPES:
+            for when in ("before", "while", "after"):
+                for val in (5, 2, 0):
+                    for mode in modes:
+                        cases.append(Case("s%d" % k, mode, [ConnSpec(shape, seg, plan_for(combo, "n", takes, rid=1 + k % 2))], RESPS,
+                                          tcfg=(5, None, 7000), sett=(when, val)))
                         k += 1
     # race orders, explicit resume, mixed actions, take-nothing-and-suspend, reader that returns data, known-size replies
     nrand = (3000 if tier == "thorough" else 500) * (3 if boost else 1)
@@ -746,6 +776,12 @@ def analyse(lines, nconn, threaded=False):
             if q is not None:
                 q.completed = int(d["code"])
             v.events.append("completed code=%s" % d["code"])
+        elif w[0] == "settimeout":
+            v.events.append("settimeout sec=%s susp=%s" % (d.get("sec"), d.get("susp")))
+            if d.get("susp") == "1":
+                v.nsett_susp = getattr(v, "nsett_susp", 0) + 1
+        elif w[0] == "tolist-violation":
+            v.violations.append("timeout lists: " + l)
         elif w[0] == "frozen-violation":
             v.violations.append("processing state changed while suspended: " + l[:160])
         elif w[0] in ("protocol-error", "double-suspend"):
@@ -825,6 +861,8 @@ class Spec:
                          "Mhd.C11.resume_inside_traversal_partial", "Mhd.C11.timer_guards_present",
                          "Mhd.C11.resume_restarts_timer_all_lists", "Mhd.C11.no_timeout_while_suspended",
                          "Mhd.C11.no_early_timeout_after_resume", "Mhd.C11.manual_restart_witness",
+                         "Mhd.C11.set_timeout_while_suspended_keeps_lists", "Mhd.C11.timeout_lists_consistent",
+                         "Mhd.C11.set_timeout_guard_witness",
                          "Mhd.C11.instant_retry_witness", "Mhd.C11.reader_data_witness"]
     trusted_base = ["Lean 4 kernel", "axioms: propext, Classical.choice, Quot.sound at most (audited per theorem)",
                     "hand-written model lean/Mhd/Model/Susp*.lean tied to daemon.c / connection.c by this run's correspondence",
@@ -898,6 +936,11 @@ class Spec:
             stats["mode_" + c.mode] = stats.get("mode_" + c.mode, 0) + 1
             if c.tcfg:
                 stats["timer_cases"] = stats.get("timer_cases", 0) + 1
+                if c.sett:
+                    stats["settimeout_cases"] = stats.get("settimeout_cases", 0) + 1
+                    stats["settimeout_%s" % c.sett[0]] = stats.get("settimeout_%s" % c.sett[0], 0) + 1
+                    if any(l.startswith("settimeout ") and "susp=1" in l for l in hl):
+                        stats["settimeout_applied_while_suspended"] = stats.get("settimeout_applied_while_suspended", 0) + 1
                 if any(l.startswith("ticked ") for l in hl):
                     stats["timer_cases_clock_ran_while_suspended"] = stats.get("timer_cases_clock_ran_while_suspended", 0) + 1
                     lst = "never" if c.tcfg[1] == 0 else ("manual_list" if (c.tcfg[1] is not None and c.tcfg[1] != c.tcfg[0]) else "default_list")
@@ -1028,6 +1071,10 @@ class Spec:
                "timer": "virtual clock advanced by 7 s only while the connection is suspended x daemon timeout {0, 5 s} x own timeout {none, 2 s, "
                         "= default, 0} x every single suspend point (+ F0F1, L0L1) x 4 shapes x select/epoll x {all data before, last piece after the "
                         "resume}; oracle: never TIMEOUT_REACHED, projection = run without suspends (counts: timer_*)",
+               "settimeout": "MHD_set_connection_option(TIMEOUT) from outside the callbacks {before the suspension, while suspended, after the resume} "
+                             "x new value {= default, != default, 0} x every single suspend point (+ F0F1, L0L1) x 4 shapes x select/epoll; "
+                             "white-box membership count of the connection in both timeout lists after every such call and every round "
+                             "(`tolist-violation`), (counts: settimeout_*)",
                "timeout_hint": "select mode: MHD_get_timeout64 after every round (0 / none) equals Daemon.hintZero of the model (hint_*)",
                "strength": {"callback order per connection (select/epoll external)": "bounded-exhaustive over placements + random; exact diff",
                             "canonical projection (all modes)": "every case, against the run without suspends and against the model",
